@@ -50,7 +50,7 @@ func c06Stmts(fd *ast.FuncDecl) []string {
 	walk = func(list []ast.Stmt) {
 		for _, st := range list {
 			switch s := st.(type) {
-			case *ast.AssignStmt, *ast.ReturnStmt, *ast.ExprStmt, *ast.IncDecStmt, *ast.DeclStmt:
+			case *ast.AssignStmt, *ast.ReturnStmt, *ast.ExprStmt, *ast.IncDecStmt, *ast.DeclStmt, *ast.BranchStmt:
 				out = append(out, c06Src(st))
 			case *ast.IfStmt:
 				if s.Init != nil {
@@ -153,6 +153,41 @@ func extractC06Deep(l *lean, _, _ *ast.File) {
 		}
 		l.def("dagBody_"+fn, "List String", leanStrList(st), st)
 	}
+	// ---- transaction.go NewTransaction, signing.go Sign: exact bodies; currentVersion
+	fst, tf := parseFile("network/dag/transaction.go")
+	c06Fset = fst
+	nt := c06Stmts(funcDecl(tf, "NewTransaction"))
+	l.def("body_NewTransaction", "List String", leanStrList(nt), nt)
+	vp := c06Stmts(funcDecl(tf, "ValidatePayloadType"))
+	l.def("body_ValidatePayloadType", "List String", leanStrList(vp), vp)
+	cv, cvOK := 0, false
+	ast.Inspect(tf, func(n ast.Node) bool {
+		if vs, ok := n.(*ast.ValueSpec); ok {
+			for i, id := range vs.Names {
+				if id.Name == "currentVersion" && i < len(vs.Values) {
+					if bl, ok := vs.Values[i].(*ast.BasicLit); ok && bl.Kind == token.INT {
+						v, err := strconv.Atoi(bl.Value)
+						cv, cvOK = v, err == nil
+					}
+				}
+			}
+		}
+		return true
+	})
+	l.def("currentVersion", "Int", c06NatOr(cv, cvOK, "currentVersion"), cv)
+	fss, sgf := parseFile("network/dag/signing.go")
+	c06Fset = fss
+	var signFd *ast.FuncDecl
+	for _, d := range sgf.Decls {
+		if x, ok := d.(*ast.FuncDecl); ok && x.Name.Name == "Sign" {
+			signFd = x
+		}
+	}
+	sb := c06Stmts(signFd)
+	if signFd == nil {
+		sb = []string{"<missing:Sign>"}
+	}
+	l.def("body_Sign", "List String", leanStrList(sb), sb)
 	// hash.SHA256HashSize
 	_, hf := parseFile("crypto/hash/sha256.go")
 	hs, hsOK := 0, false
